@@ -15,7 +15,7 @@ func init() {
 		ID:    "C06",
 		Level: "exploration",
 		Rule: "trial = queued channel (wait-forever and bounded-wait), W writers finish their writes, then Close is invoked (user goroutine or a handler on the read loop) while late writers may still write; " +
-			"plans: the decisive script (sender parked after its final flush until all calls returned, then parked after releasing ownership until the closer has left its wait loop), every closer-point x sender/writer-point window, PCT delays, stress; " +
+			"io.Reader messages of several pooled chunks (ReadFrom) accepted while the sender is inside Writev; plans: the decisive script (sender parked after its final flush until all calls returned, then parked after releasing ownership until the closer has left its wait loop), every closer-point x sender/writer-point window, PCT delays, stress; " +
 			"oracle on the transport log at the Close op: every payload whose call returned OK before the Close invocation tick is on the wire and followed by a Flush, and no Writev is in progress; " +
 			"distinct_nontrivial = distinct event-order signatures among trials where the closer overlapped a live sender (a sender point was passed after Close was invoked)",
 		Assumptions: []string{
